@@ -15,13 +15,10 @@
 From Lal Require Import Common.LBytes Common.Res Media.MediaMsgChecked Media.MediaMsgProofs Media.MediaDummyAudio Media.MediaDummyProofs
   Media.MediaTsRemux Media.MediaTsProofs Media.MediaRtspRemux Media.MediaRtspProofs Media.MediaBroadcast Media.MediaBroadcastProofs
   Media.MediaCodecGlue Media.MediaGlueProofs Media.MediaCostProofs Media.MediaAmortProofs.
-From Lal Require Import Codec.CodecBits.
+From Lal Require Import Codec.CodecBits Codec.CodecSpsAvc Codec.CodecSpsHevc Codec.CodecPadProofs.
 Open Scope N_scope.
 
-(* [well_framed m]: 32-bit timestamp (type and payload are arbitrary).
-   [f13_free m] (known finding F-13, naza dependency): if m is a video message whose payload parses as an
-   avc / hevc / enhanced-hevc sequence header record, ParseSps returns (a value or an error) on the SPS it
-   carries - i.e. the SPS does not end in a zero-width nazabits read.  Both defined in Media/MediaGlueProofs.v *)
+(* [well_framed m]: 32-bit timestamp (type and payload are arbitrary); defined in Media/MediaGlueProofs.v *)
 
 (* --- the property -------------------------------------------------------------------------- *)
 
@@ -30,21 +27,10 @@ Open Scope N_scope.
    no step panics and no loop of the model runs out of fuel *)
 Theorem c05_no_panic : forall (c : grp_cfg) (history : list gev),
   gc_add c = false ->
-  (forall m, In (GPub m) history -> well_framed m /\ f13_free m) ->
+  (forall m, In (GPub m) history -> well_framed m) ->
   snd (m_grun fixes_all c history) = None.
 Proof. exact no_panic_main. Qed.
 Print Assumptions c05_no_panic.
-
-(* audio and metadata never meet the excluding hypothesis: for a history without video sequence
-   headers (IsAvcKeySeqHeader / IsHevcKeySeqHeader false on every video message is implied by
-   "the record parsers refuse the payload") the theorem is unconditional; stated for the simplest
-   class: histories whose video payloads are all shorter than 13 bytes *)
-Theorem c05_no_panic_short_payloads : forall (c : grp_cfg) (history : list gev),
-  gc_add c = false ->
-  (forall m, In (GPub m) history -> well_framed m /\ (mm_type m = t_video -> lenN (mm_pay m) < 13)) ->
-  snd (m_grun fixes_all c history) = None.
-Proof. exact no_panic_short. Qed.
-Print Assumptions c05_no_panic_short_payloads.
 
 (* --- bounded work ------------------------------------------------------------------------------ *)
 (* [m_gtotal fx c h] = total work of history h, every step counted as
@@ -55,7 +41,7 @@ Print Assumptions c05_no_panic_short_payloads.
    J = number of rtmp / http-flv joins, 4293 = 477 silent frames of 9 = 10 s of silence per message at most *)
 Theorem c05_bounded_work : forall (c : grp_cfg) (history : list gev),
   gc_add c = false ->
-  (forall m, In (GPub m) history -> well_framed m /\ f13_free m) ->
+  (forall m, In (GPub m) history -> well_framed m) ->
   exists total, m_gtotal fixes_all c history = Some total /\
                 total <= (11 + joins_count history) * pubs_cost history
                          + (10 + joins_count history) * 4293 * pubs_count history.
@@ -85,7 +71,7 @@ Definition amsg (ts : N) (p : bytes) : gev := GPub (mk_mmsg t_audio ts p).
 (* all fixes but one *)
 Definition fx_but (k : N) : fixes :=
   mk_fixes (negb (k =? 1)) (negb (k =? 2)) (negb (k =? 3)) (negb (k =? 4)) (negb (k =? 5)) (negb (k =? 6))
-           (negb (k =? 7)) (negb (k =? 8)) (negb (k =? 9)) (negb (k =? 10)).
+           (negb (k =? 7)) (negb (k =? 8)) (negb (k =? 9)) (negb (k =? 10)) (negb (k =? 11)).
 
 (* F-21: one-byte payloads and short enhanced-rtmp headers; every fix is needed *)
 Theorem c05_pinned_refuted :
@@ -131,14 +117,23 @@ Theorem c05_bounded_work_pinned_refuted :
 Proof. vm_compute; reflexivity. Qed.
 Print Assumptions c05_bounded_work_pinned_refuted.
 
-(* F-13, still open (naza): an avc sequence header whose SPS 67 42 00 1e ff ends in a zero-width read
-   panics in the statistics block of the fixed tree, whatever outputs are enabled *)
-Theorem c05_f13_refuted :
-  snd (m_grun fixes_all cfg_all
-         [vmsg 0 [23; 0; 0; 0; 0; 1; 100; 0; 31; 255; 225; 0; 5; 103; 66; 0; 30; 255; 1; 0; 4; 40; 238; 60; 176]])
-  = Some site_nazabits_zero_read.
-Proof. vm_compute; reflexivity. Qed.
-Print Assumptions c05_f13_refuted.
+(* F-13 (naza nazabits: zero-width read at the end of the buffer), before the lal-side repair: an avc sequence
+   header whose SPS 67 42 00 1e ff ends with the 1 bit of a ue(v) code word panics in the statistics block,
+   whatever outputs are enabled; with the repair (the reader gets the RBSP copy plus one zero byte) it is processed *)
+Theorem c05_f13_pinned_refuted :
+  let h := [vmsg 0 [23; 0; 0; 0; 0; 1; 100; 0; 31; 255; 225; 0; 5; 103; 66; 0; 30; 255; 1; 0; 4; 40; 238; 60; 176]] in
+  snd (m_grun (fx_but 11) cfg_all h) = Some site_nazabits_zero_read /\ m_grun fixes_all cfg_all h = (1, None).
+Proof. cbv zeta. split; vm_compute; reflexivity. Qed.
+Print Assumptions c05_f13_pinned_refuted.
+
+(* the reader invariant behind it: a buffer that ends with a zero byte keeps "the last remaining bit is 0", so
+   the 1 bit that ends a code word always has a bit - hence a byte of core[] - behind it; avc.ParseSps and
+   hevc.ParseSps then return a value or an ordinary error on EVERY byte string (no panic, no fuel exhaustion) *)
+Theorem c05_parse_sps_total : forall sps ctx,
+  ((exists c, CodecSpsAvc.parse_sps_avc sps = Ok c) \/ (exists e, CodecSpsAvc.parse_sps_avc sps = Err e /\ e <> err_out_of_fuel)) /\
+  ((exists c, CodecSpsHevc.hevc_parse_sps sps ctx = Ok c) \/ (exists e, CodecSpsHevc.hevc_parse_sps sps ctx = Err e /\ e <> err_out_of_fuel)).
+Proof. intros sps ctx. split; [exact (parse_sps_avc_total sps)|exact (hevc_parse_sps_total sps ctx)]. Qed.
+Print Assumptions c05_parse_sps_total.
 
 (* RtspRemuxerAddSpsPps2KeyFrameFlag = true (never set by lalserver): a 6-byte key frame is sliced at [9:] *)
 Theorem c05_add_flag_refuted :
@@ -155,7 +150,7 @@ Example c05_nonvacuous :
             vmsg 40 [23; 1; 0; 0; 0; 0; 0; 0; 4; 101; 136; 132; 10]; amsg 40 [175; 1; 33; 16; 4; 96; 140; 28]] in
   m_grun fixes_all cfg_all h = (4, None) /\
   (forall m, In (GPub m) h -> mm_ts m < 4294967296) /\
-  is_ok (glue_avc_dims [39; 100; 0; 31; 172; 86; 128; 180; 10; 25]).
+  is_ok (glue_avc_dims fixes_all [39; 100; 0; 31; 172; 86; 128; 180; 10; 25]).
 Proof.
   cbv zeta. split; [vm_compute; reflexivity|]. split.
   - intros m [H|[H|[H|[H|[H|[H|[]]]]]]]; inversion H; subst; cbn; reflexivity.
